@@ -141,8 +141,11 @@ def judge_unittwist(ctx, api, Sv, out, again=None):
     ctx.nontrivial(api, [float('%.12g' % x) for x in Sv])
 
 
-def judge_angdiff(ctx, a, b, out):
+def judge_angdiff(ctx, a, b, out, etype=None):
     sig = dict(api='base.angdiff', args='1' if b is None else '2', form='array' if np.ndim(a) else 'scalar')
+    if etype:
+        sig['element_type'] = 'float32' if etype == 'float32' else 'narrow integer'
+
     A = np.atleast_1d(np.asarray(a, dtype=np.float64))
     Bv = np.zeros_like(A) if b is None else np.broadcast_to(np.asarray(b, dtype=np.float64), A.shape)
     O = np.atleast_1d(np.asarray(out, dtype=np.float64))
@@ -315,12 +318,17 @@ def run_angdiff(ctx, p):
     a, bb = p['a'], p.get('b')
     a = np.asarray(a, dtype=np.float64) if isinstance(a, list) else a
     bb = np.asarray(bb, dtype=np.float64) if isinstance(bb, list) else bb
+    ga, gb = a, bb
+    if p.get('etype'):
+        # whole-number angles (degrees read from a sensor, say) in a narrow or unsigned NumPy type: the same real numbers
+        cast = lambda v: None if v is None else (np.asarray(v).astype(p['etype']) if np.ndim(v) else np.dtype(p['etype']).type(v))
+        ga, gb = cast(a), cast(bb)
     try:
-        out = b.angdiff(a) if bb is None else b.angdiff(a, bb)
+        out = b.angdiff(ga) if gb is None else b.angdiff(ga, gb)
     except Exception as e:
         ctx.bad('angdiff', dict(api='base.angdiff', kind='raised', exc=type(e).__name__), 'angdiff(%r, %r) raised %r' % (a, bb, e))
         return
-    judge_angdiff(ctx, a, bb, out)
+    judge_angdiff(ctx, a, bb, out, p.get('etype'))
 
 
 RUNNERS = {'trnorm': run_trnorm, 'pose_norm': run_pose_norm, 'unit': run_unit, 'twist': run_twist, 'angdiff': run_angdiff}
@@ -435,3 +443,11 @@ def run(ctx):
             a = [special_angle(rng) for _ in range(k)]
             b = ([special_angle(rng) for _ in range(k)] if rng.random() < 0.5 else special_angle(rng)) if two else None
         drive(RUNNERS, ctx, 'angdiff', dict(a=a, b=b))
+        if rng.random() < 0.1:
+            et = ['uint8', 'int8', 'float32', 'uint16'][rng.integers(4)]
+            lo_, hi_ = {'uint8': (0, 256), 'int8': (-128, 128), 'float32': (-1000, 1000), 'uint16': (0, 1000)}[et]
+            mk_ = lambda: float(rng.integers(lo_, hi_))
+            k = int(rng.integers(0, 4))
+            a = mk_() if k == 0 else [mk_() for _ in range(k)]
+            b = (mk_() if k == 0 else [mk_() for _ in range(k)]) if two else None
+            drive(RUNNERS, ctx, 'angdiff', dict(a=a, b=b, etype=et))
